@@ -1,6 +1,179 @@
-"""Kani harnesses appended to a scratch copy of the crate — see DESIGN.md 3.2."""
+"""Kani harnesses appended (cfg(kani) only) to a scratch copy of the crate — DESIGN.md §3.2.
+
+A harness is a function contract written as assume(pre) / assert(post) around the REAL function;
+the harnesses registered `complete` are loop-free over the full machine domain, so a pass is a proof,
+not a bounded result.  On failure Kani's concrete playback produces a unit test that is executed
+natively against the real code (`cargo kani playback`): that is the replay.
+"""
 from __future__ import annotations
+import json, os, re, shutil, subprocess, time
+from .world import VERIF
+
+APPEND = [
+    ("kani/types.rs", "src/query.rs"),
+    ("kani/comparison_harness.rs", "src/query/comparison.rs"),
+    ("kani/index_harness.rs", "src/query/selector.rs"),
+]
+
+# harness -> (unit, obligation, kind)   kind: complete | bounded | probe (expected to fail: shows a precondition is necessary) | canary
+HARNESSES = {
+    "num_int_int":          ("eq/lt", "cmp.numbers.int_int", "complete"),
+    "num_float_float":      ("eq/lt", "cmp.numbers.float_float", "complete"),
+    "eq_int_float":         ("eq", "eq.numbers.int_float", "complete"),
+    "eq_float_int":         ("eq", "eq.numbers.float_int", "complete"),
+    "lt_int_float":         ("lt", "lt.numbers.int_float", "complete"),
+    "lt_float_int":         ("lt", "lt.numbers.float_int", "complete"),
+    "mixed_shapes_small":   ("eq/lt", "cmp.numbers.shapes", "bounded"),
+    "cross_types":          ("eq/lt", "cmp.types", "complete"),
+    "nothing":              ("eq/lt", "cmp.nothing", "complete"),
+    "numbers_second_view":  ("eq/lt", "cmp.numbers.second_view", "complete"),
+    "canary_must_fail":     ("eq", "canary", "canary"),
+    "index_ijson":          ("process_index", "index.rfc.len_le_3", "bounded"),
+    "index_any_i64_probe":  ("process_index", "index.no_precondition", "probe"),
+}
+BY_PROP = {
+    "C04": ["num_int_int", "num_float_float", "eq_int_float", "eq_float_int", "lt_int_float", "lt_float_int",
+            "mixed_shapes_small", "cross_types", "nothing", "canary_must_fail"],
+    "C15": ["numbers_second_view", "num_int_int", "canary_must_fail"],
+    "C08": ["index_ijson", "index_any_i64_probe"],
+}
+
+
+def prepare_crate(run) -> str:
+    dst = os.path.join(run.scratch, "kani-crate")
+    if os.path.exists(dst):
+        return dst
+    subprocess.run(["rsync", "-a", "--exclude", "target", "--exclude", ".git", run.repo.root + "/", dst + "/"], check=True)
+    for src, rel in APPEND:
+        with open(os.path.join(dst, rel), "a") as f:
+            f.write(open(os.path.join(VERIF, src)).read())
+    return dst
+
+
+def parse(output: str) -> dict:
+    """harness short name -> dict(status, failed_checks, time, covers)"""
+    res, thread_h = {}, {}
+    cur = None
+    for line in output.splitlines():
+        m = re.match(r"Thread (\d+): Checking harness (\S+?)\.\.\.", line)
+        if m:
+            thread_h[m.group(1)] = m.group(2).rsplit("::", 1)[-1]
+            continue
+        m = re.match(r"Checking harness (\S+?)\.\.\.", line)
+        if m:
+            cur = m.group(1).rsplit("::", 1)[-1]
+            res.setdefault(cur, {"failed_checks": []})
+            continue
+        m = re.match(r"Thread (\d+):\s*$", line)
+        if m:
+            cur = thread_h.get(m.group(1))
+            res.setdefault(cur, {"failed_checks": []})
+            continue
+        if cur is None:
+            continue
+        if line.startswith("Failed Checks:"):
+            res[cur]["failed_checks"].append(line[len("Failed Checks:"):].strip())
+        m = re.match(r"VERIFICATION:- (\w+)", line)
+        if m:
+            res[cur]["status"] = m.group(1)
+        m = re.match(r"Verification Time: ([0-9.]+)s", line)
+        if m:
+            res[cur]["time"] = float(m.group(1))
+        m = re.match(r"\s*\*\* (\d+) of (\d+) cover properties satisfied", line)
+        if m:
+            res[cur]["covers"] = (int(m.group(1)), int(m.group(2)))
+    return res
+
+
+def cargo_kani(crate: str, harnesses: list[str], target: str, extra: list[str] = (), timeout=3000):
+    env = dict(os.environ, CARGO_NET_OFFLINE="true", CARGO_TARGET_DIR=target)
+    cmd = ["cargo", "kani", "-Z", "stubbing"] + [x for h in harnesses for x in ("--harness", h)] + \
+          ["-j", "8", "--output-format", "terse"] + list(extra)
+    t0 = time.time()
+    try:
+        p = subprocess.run(cmd, cwd=crate, env=env, capture_output=True, text=True, timeout=timeout)
+        out = p.stdout + p.stderr
+    except subprocess.TimeoutExpired as e:
+        out = (e.stdout or b"").decode(errors="replace") if isinstance(e.stdout, bytes) else (e.stdout or "")
+        out += "\nTIMEOUT"
+    return " ".join(cmd), out, time.time() - t0
+
+
+def playback(crate: str, target: str, harness: str) -> dict:
+    """concrete playback: generate the unit test for the failing harness in place and run it natively"""
+    cmd, out, _ = cargo_kani(crate, [harness], target, ["-Z", "concrete-playback", "--concrete-playback=inplace"], timeout=1200)
+    info = {"generated": "INFO: Now modifying the source code" in out or "concrete playback" in out.lower()}
+    env = dict(os.environ, CARGO_NET_OFFLINE="true", CARGO_TARGET_DIR=target)
+    p = subprocess.run(["cargo", "kani", "playback", "-Z", "concrete-playback", "--", "kani_concrete_playback"],
+                       cwd=crate, env=env, capture_output=True, text=True, timeout=1200)
+    txt = p.stdout + p.stderr
+    info["native_test_failed"] = ("test result: FAILED" in txt) or ("panicked at" in txt)
+    info["native_output"] = "\n".join(l for l in txt.splitlines() if "panicked" in l or "assertion" in l or "test " in l)[-1500:]
+    # the generated test (concrete input bytes)
+    for root, _, files in os.walk(os.path.join(crate, "src")):
+        for fn in files:
+            src = open(os.path.join(root, fn)).read()
+            m = re.search(r"#\[test\]\s*fn kani_concrete_playback_" + re.escape(harness) + r".*?\n}\n", src, flags=re.S)
+            if m:
+                info["test"] = m.group(0)[:3000]
+    return info
 
 
 def run_for(run):
-    return
+    names = BY_PROP.get(run.prop, [])
+    if not names:
+        return
+    if run.tier == "quick" and run.prop == "C15":
+        names = [n for n in names if n != "numbers_second_view"] + ["numbers_second_view"]
+    crate = prepare_crate(run)
+    target = os.path.join(VERIF, "kani", "target")   # build cache only (gitignored); the crate copy is fresh on every run
+    cmd, out, wall = cargo_kani(crate, names, target)
+    res = parse(out)
+    run.checker_cmds.append(re.sub(r"\s+", " ", cmd))
+    for h in names:
+        unit, obl, kind = HARNESSES[h]
+        r = res.get(h, {})
+        st = r.get("status")
+        rep = {"unit": unit, "harness": h, "obligation": obl, "backend": "kani/cbmc", "kind": kind,
+               "status": st, "time_s": r.get("time"), "covers": r.get("covers")}
+        run.unit_reports.append(rep)
+        if st is None:
+            run.undecided.append(f"kani harness {h}: no result ({'timeout' if 'TIMEOUT' in out else 'build/tool failure'}): " + out[-300:].replace("\n", " | "))
+            continue
+        if kind == "canary":
+            if st != "FAILED":
+                run.undecided.append(f"kani canary {h} did not fail — vacuity guard")
+            continue
+        if kind == "probe":
+            # informational: the harness has NO precondition; a failure shows the precondition is necessary
+            rep["note"] = "expected to fail without the I-JSON precondition: " + "; ".join(r.get("failed_checks", []))[:300]
+            run.notes.append(f"probe {h}: {st}")
+            continue
+        cov = r.get("covers")
+        if cov and cov[0] != cov[1]:
+            run.undecided.append(f"kani harness {h}: cover not satisfied {cov} — harness may be vacuous")
+        if kind == "complete":
+            run.obligations += 1
+        else:
+            run.bounded["kani_bounded_harnesses"] = run.bounded.get("kani_bounded_harnesses", 0) + 1
+        if st == "SUCCESSFUL":
+            if kind == "complete":
+                run.discharged += 1
+            run.samples.append({"obligation": obl, "unit": unit, "backend": "kani", "kind": kind, "result": "SUCCESSFUL"})
+        else:
+            pb = {}
+            try:
+                pb = playback(crate, target, h)
+            except Exception as e:      # playback is best effort; the violation is reported either way
+                pb = {"error": str(e)}
+            os.makedirs(os.path.join(VERIF, "replays"), exist_ok=True)
+            path = os.path.join(VERIF, "replays", f"{run.prop}_kani_{h}.json")
+            doc = {"property": run.prop, "unit": unit, "backend": "kani", "harness": h, "failed_obligations": [obl],
+                   "verifier_output": r.get("failed_checks", []), "verifier_cmd": cmd, "counterexample": pb}
+            with open(path, "w") as f:
+                json.dump(doc, f, indent=1)
+            run.violations.append({"unit": unit, "obligations": [obl], "replay": path,
+                                   "cex": pb if pb.get("native_test_failed") else None})
+    run.trusted.update(["kani/cbmc: bit-precise i64/f64 semantics; SAT solver",
+                        "kani harness types S/S2/K (drop-free Queryable instances, kani/types.rs)",
+                        "kani oracle math_cmp_i64_f64: exact order by f64 bit decomposition in i128"])
